@@ -637,14 +637,96 @@ def graph_text(db_path=".stepup/graph.db", attached_only=False):
 
 
 def canonical_graph(text, attached_only=False):
-    blocks = [b for b in text.split("\n\n") if b.strip()]
+    """Sort the node blocks of `Workflow.format_str()`.
+
+    attached_only: drop the blocks of detached nodes (key in parentheses) and the relation lines
+    that point to detached nodes (memories of former lives are allowed to differ), and drop the
+    stored digests of PENDING steps (a pending step is not "considered done"; whether it remembers
+    an old hash only affects whether it is hash-checked before it runs).
+    """
     out = []
-    for block in blocks:
-        lines = block.split("\n")
+    for block in text.split("\n\n"):
+        lines = [l for l in block.split("\n") if l.strip()]
+        if not lines:
+            continue
         head = lines[0]
         if attached_only and head.startswith("("):
             continue
         if attached_only:
-            lines = [l for l in lines if not (l.strip().startswith("sink ") and "(" in l.split("sink", 1)[1][:6])]
+            pending = any(l.strip() == "state = PENDING" for l in lines[1:3])
+            kept = []
+            for l in lines:
+                parts = l.split(None, 1)
+                if len(parts) == 2 and parts[0] in ("sink", "source", "product") and parts[1].startswith("("):
+                    continue
+                if pending and parts and parts[0] in ("inp_digest", "out_digest", "explained"):
+                    continue
+                kept.append(l)
+            lines = kept
         out.append("\n".join(lines))
     return "\n\n".join(sorted(out))
+
+
+def parse_graph(text):
+    """Parse a canonical graph text into {head: {"props": [(k, v)], "rels": [(role, key, dynamic)]}}."""
+    graph = {}
+    for block in text.split("\n\n"):
+        lines = [l for l in block.split("\n") if l.strip()]
+        if not lines:
+            continue
+        head = lines[0]
+        props, rels = [], []
+        last_key = None
+        for l in lines[1:]:
+            if " = " in l[:24] or l[:23].rstrip().endswith("="):
+                k, _, v = l.partition(" = ")
+                last_key = k.strip() or last_key
+                props.append((last_key, v))
+            else:
+                parts = l.split(None, 1)
+                role, key = parts[0], parts[1] if len(parts) > 1 else ""
+                dynamic = key.endswith(" [dynamic]")
+                if dynamic:
+                    key = key[: -len(" [dynamic]")]
+                rels.append((role, key, dynamic))
+        graph[head] = {"props": props, "rels": rels}
+    return graph
+
+
+def drop_pending_memory(graph):
+    """Remove what a PENDING step remembers from an earlier run: its dynamic inputs, the outputs
+    it amended, and the nodes it created while running (defined steps, static declarations, and
+    recursively what those created).  Returns (graph, removed heads)."""
+    import copy as _copy
+
+    g = _copy.deepcopy(graph)
+    removed = set()
+
+    def remove_node(head):
+        if head not in g or head in removed:
+            return
+        node = g.pop(head)
+        removed.add(head)
+        for role, key, _dyn in node["rels"]:
+            if role == "product":
+                remove_node(key)
+        for n2 in g.values():
+            n2["rels"] = [r for r in n2["rels"] if r[1] != head]
+
+    for head in list(g):
+        node = g.get(head)
+        if node is None or not head.startswith("step:") or ("state", "PENDING") not in node["props"]:
+            continue
+        declared_outs = {r[1] for r in node["rels"] if r[0] == "sink" and not r[2]}
+        for role, key, dynamic in list(node["rels"]):
+            if role == "product" and key not in declared_outs:
+                # a step or static declaration made while running, or an amended output
+                remove_node(key)
+        node = g.get(head)
+        for role, key, dynamic in list(node["rels"]):
+            if dynamic and role == "source":
+                node["rels"].remove((role, key, dynamic))
+                other = g.get(key)
+                if other is not None:
+                    other["rels"] = [r for r in other["rels"] if not (r[0] == "sink" and r[1] == head)]
+    return g, removed
